@@ -986,6 +986,19 @@ func (e *Exec) evalLoc(x Expr, env *Env) location {
 			_, comps, _, _ := e.ghostComps(g)
 			return location{kind: "ghost", comps: comps}
 		}
+		// a local variable that lives in a cell (captured by a closure, or address taken)
+		var cell *Addr
+		if v, ok := env.vars[x.Name]; ok && v.Addr != nil {
+			cell = v.Addr
+		} else if env.fr != nil {
+			if v, ok := env.fr.lookupName(e, x.Name, env.block); ok && v.Addr != nil {
+				cell = v.Addr
+			}
+		}
+		if cell != nil && cell.Kind == "cell" {
+			e.get(env.st, cell.Heap, cell.HS)
+			return location{kind: "heap", heap: cell.Heap, hs: cell.HS, ref: cell.Ref}
+		}
 	case EIndex:
 		if id, ok := x.X.(EIdent); ok {
 			if g, ok := e.P.Spec.Ghosts[id.Name]; ok {
